@@ -9,6 +9,26 @@ CLAIMS = {
    text='Kernel-checked theorems state, for all i32 operands without bound or sampling, that each of the 17 GarnishNumber operations of the Lean model of data/src/data/number.rs equals the exact-or-none specification (floats: decision logic over an abstract IEEE type). The model is tied to the code by differential execution on ~600k cases per quick run (full 183-value boundary lattice squared x every operation, exhaustive; shift counts and exponents -3..69; random pairs; float and mixed lattices by bit pattern) plus an independent exact-integer oracle.',
    note='Trusted: Lean kernel; Rust std overflowing_*/pow/f64 semantics as documented; IEEE-754 arithmetic is a parameter (FloatOps F) of the theorems, instantiated by hardware doubles in the driver; harness and oracle code. `<<` specified as the 32-bit shift. Known finding F-C09-1 (// with a float operand saturates; pinned by a repository test).',
    ref='DESIGN.md §6 C09'),
+ 'C08': dict(
+   technique='Lean 4 theorems over the value-level model of every handler: an undefined type pair is deferred exactly once and yields unit; exhaustive OP matrix (instruction x type pair x representatives x store x host mode) ties the model to the code',
+   text='Kernel-checked theorems state for all values of all types (no sampling: dispatch depends on types only, the proofs split over the complete 20x20 type square and lift over all values) that every arithmetic, bitwise, range, access, apply and internal-accessor instruction on a combination Spec/Defined.lean leaves undefined produces exactly one offer to the host with (op, left, right), then unit if it declines or the host value unchanged, exactly one result, no error, and that the machine continues with the next instruction. The model is tied to both data implementations by the complete matrix (291k cases, exhaustive) run on every check.',
+   note='Trusted: Lean kernel; the hand-written value-level model Abs/Ops.lean + Abs/Machine.lean as far as the exhaustive OP matrix exercises it; Spec/Defined.lean as the statement of what the language defines; harness. Casts (ApplyType) and slice operands are executed but not modelled.',
+   ref='DESIGN.md §6 C08'),
+ 'C10': dict(
+   technique='Lean 4 theorems: exactly two values are false and all seven testing instructions of the machine model use that one classification; falsy sets regenerated from logical.rs / jumps.rs and bridged by decide; exhaustive OP matrix for the testers',
+   text='Theorems (all values, all types): truthy v is false iff v is unit or $!; JumpIfTrue/JumpIfFalse/And/Or/Xor/Not/Tis of the machine model are functions of truthy and And/Or always leave a boolean. The three places where the Rust spells the falsy set are re-extracted from the source on every run and a bridge theorem (decide) equates each with the language set, so a table edit breaks a proof obligation while the behavioural OP matrix (every type x every tester x 2 stores x 3 host modes, exhaustive) finds the misclassified value.',
+   note='Trusted: Lean kernel; translator tools/gen/runtime_tables.py; value-level machine tied to the handlers by the OP suite. Program-level short-circuit/arm selection is decided with the compiled-code model (C01 machinery).',
+   ref='DESIGN.md §6 C10'),
+ 'C11': dict(
+   technique='Lean 4 theorems: valEq = equality of structural normal forms is reflexive, symmetric, transitive on the property domain (mutual induction over nested values), != is its negation, == leaves exactly one result; OP.Equal/NotEqual correspondence + independent structural oracle on both stores',
+   text='Kernel-checked mutual-induction proofs over all value trees (unbounded depth and width): reflexivity, symmetry, transitivity of the value-level equality, its case-by-case structural characterisation (numbers numerically, char = one-element text, pairs component-wise, lists and concatenations as flat item sequences), negation, and the machine step replacing exactly the two operands by one boolean. Tied to equality.rs on both data implementations by the OP suite (complete type matrix + random trees with copies at different addresses, near-miss mutants in both orders, list-vs-concatenation spellings), with an independent Python normal-form oracle, symmetry and register-delta checks.',
+   note='Trusted: Lean kernel; FloatEqLaws F (IEEE == laws, exact i32->f64) as hypotheses; value-level model tied by the OP suite; the register-stack work-list of perform_equality_check is observed through the register delta (its L2 refinement proof is future work). Domain excludes NaN, slices, partials.',
+   ref='DESIGN.md §6 C11'),
+ 'C12': dict(
+   technique='Lean 4 theorems: the four comparison operators of the model equal the Int / Nat / lexicographic order (cmpList = List <), foreign pairs are false, swap law under FloatOrderLaws; OP comparison suite + independent oracle on both stores',
+   text='Theorems for all integers, all code points, all char/byte lists of any length: < <= > >= of the model decide exactly the natural order (cmpList xs ys = lt iff xs < ys in the lexicographic order with the shorter prefix first, by induction on the lists), trichotomy and <= = not > on every ordered pair, all four false on every foreign type pair (complete type square), unit on unordered floats, a < b iff b > a for mixed numbers under stated IEEE order laws. Tied to comparison.rs by the OP suite: numeric lattice incl. int/float neighbours, all string pairs <= 3 over {a,b,é} on both stores, random multi-byte strings, complete cross-type matrix; each also checked against an exact Python oracle.',
+   note='Trusted: Lean kernel; FloatOrderLaws F hypotheses for mixed numbers; value-level model tied by the OP suite; slices outside the model.',
+   ref='DESIGN.md §6 C12'),
 }
 checks = []
 na = []
